@@ -239,3 +239,78 @@ pub fn set_now(value: Option<std::time::Duration>) {
 pub fn now_override() -> Option<std::time::Duration> {
     NOW_OVERRIDE.with(std::cell::Cell::get)
 }
+
+// ---------------------------------------------------------------------------
+// Scheduling points (controlled-scheduler exploration of real threads)
+
+#[derive(Clone, Copy, Debug, PartialEq, Eq, Hash)]
+pub enum LockId {
+    VersionHistory,
+    CompactionState,
+    Flush,
+    MajorCompaction,
+}
+
+#[derive(Clone, Copy, Debug, PartialEq, Eq, Hash)]
+pub enum Mode {
+    Read,
+    Write,
+    Lock,
+}
+
+/// What a thread is about to do when it reaches a scheduling point.
+#[derive(Clone, Copy, Debug, PartialEq, Eq, Hash)]
+pub enum Pending {
+    Lock(LockId, Mode),
+    Point(&'static str),
+}
+
+/// Implemented by the harness. `before` is called by a registered thread right before the
+/// operation; it returns when the harness lets that thread continue.
+pub trait Scheduler: Send + Sync {
+    fn before(&self, thread: usize, pending: Pending);
+}
+
+thread_local! {
+    static SCHED_CTX: std::cell::RefCell<Option<(Arc<dyn Scheduler>, usize)>> =
+        const { std::cell::RefCell::new(None) };
+}
+
+/// Registers the calling thread with a scheduler (no-op calls for unregistered threads).
+pub fn register_thread(scheduler: Arc<dyn Scheduler>, id: usize) {
+    SCHED_CTX.with(|c| *c.borrow_mut() = Some((scheduler, id)));
+}
+
+pub fn unregister_thread() {
+    SCHED_CTX.with(|c| *c.borrow_mut() = None);
+}
+
+fn yield_to_scheduler(p: Pending) {
+    let ctx = SCHED_CTX.with(|c| c.borrow().clone());
+    if let Some((s, id)) = ctx {
+        s.before(id, p);
+    }
+}
+
+/// Called right before every acquisition of one of the tree's locks.
+pub fn before_lock(id: LockId, mode: Mode) {
+    yield_to_scheduler(Pending::Lock(id, mode));
+}
+
+/// Called at the few non-lock operations on shared external state.
+pub fn point(name: &'static str) {
+    yield_to_scheduler(Pending::Point(name));
+}
+
+/// Would this acquisition succeed right now? (probes the real lock; the guard is dropped at once)
+#[must_use]
+pub fn probe(tree: &Tree, id: LockId, mode: Mode) -> bool {
+    match (id, mode) {
+        (LockId::VersionHistory, Mode::Read) => tree.version_history.try_read().is_ok(),
+        (LockId::VersionHistory, _) => tree.version_history.try_write().is_ok(),
+        (LockId::CompactionState, _) => tree.compaction_state.try_lock().is_ok(),
+        (LockId::Flush, _) => tree.flush_lock.try_lock().is_ok(),
+        (LockId::MajorCompaction, Mode::Read) => tree.major_compaction_lock.try_read().is_ok(),
+        (LockId::MajorCompaction, _) => tree.major_compaction_lock.try_write().is_ok(),
+    }
+}
